@@ -680,7 +680,7 @@ func TestC06_closed_form_matrix_calculus(t *testing.T) {
 // values on magic matrices equal values on plain float matrices; fast paths equal generic paths
 
 func TestC06_values_and_fast_paths(t *testing.T) {
-	routines := []string{"inverse", "inverse(PD)", "gaussJordan", "cholesky", "ldl", "ldl+forcepd", "determinant", "determinant(PD)", "MdotM", "MdotV", "VdotM", "Outer"}
+	routines := []string{"inverse", "inverse(PD)", "gaussJordan", "cholesky", "ldl", "ldl+forcepd", "ldl+forcepd(indefinite)", "determinant", "determinant(PD)", "MdotM", "MdotV", "VdotM", "Outer"}
 	rapid.Check(t, func(t *rapid.T) {
 		routine := routines[rapid.IntRange(0, len(routines)-1).Draw(t, "routine")]
 		n := rapid.IntRange(1, 6).Draw(t, "n")
@@ -692,6 +692,21 @@ func TestC06_values_and_fast_paths(t *testing.T) {
 			fam = rapid.SampledFrom([]string{"general", "pivot-forcing", "integer"}).Draw(t, "family")
 		}
 		ls := gen.DrawLinSys(t, "A", n, fam)
+		if routine == "ldl+forcepd(indefinite)" {
+			// symmetric indefinite input: the forced algorithm has to modify pivots
+			q := gen.Orthogonal(t, "qi", n)
+			d := model.NewMat(n, n)
+			for i := 0; i < n; i++ {
+				d[i][i] = float64(rapid.IntRange(-16, 16).Draw(t, "evi")) / 4
+			}
+			a := q.Mul(d).Mul(q.T())
+			for i := 0; i < n; i++ {
+				for j := 0; j < i; j++ {
+					a[i][j] = a[j][i]
+				}
+			}
+			ls = gen.LinSys{A: a, Family: "symmetric indefinite", Kappa: 64}
+		}
 		other := gen.DrawLinSys(t, "B", n, "general").A
 		// variants: Float64 (specialised where one exists), Real64 without variables (generic),
 		// Real64 with variables (generic + derivative bookkeeping), Float32 / Real32 as a pair
@@ -740,12 +755,12 @@ func TestC06_values_and_fast_paths(t *testing.T) {
 					if err == nil {
 						out = append(model.FromMatrix(x), model.FromVector(b))
 					}
-				case "cholesky", "ldl", "ldl+forcepd":
+				case "cholesky", "ldl", "ldl+forcepd", "ldl+forcepd(indefinite)":
 					var args []interface{}
 					if routine != "cholesky" {
 						args = append(args, cholesky.LDL{Value: true})
 					}
-					if routine == "ldl+forcepd" {
+					if routine == "ldl+forcepd" || routine == "ldl+forcepd(indefinite)" {
 						args = append(args, cholesky.ForcePD{Value: true})
 					}
 					var l, d Matrix
